@@ -237,3 +237,38 @@ Proof.
   destruct (unrank_spec n k j Hn Hj) as [b [Eb [_ [_ Rb]]]].
   rewrite Ei in Ea. injection Ea as <-. rewrite Ej in Eb. injection Eb as <-. lia.
 Qed.
+
+(* ---------------------------------------------------------------- the fuel is not an artefact *)
+(* for n >= 0 and ANY index (in range or not) the model never runs out of fuel: the Python
+   while loop terminates (it decrements n and stops with ZeroDivisionError at n = 0 at the latest) *)
+Lemma inner_no_fuel_error : forall fuel index k cur nck n,
+  1 <= n -> n <= Z.of_nat fuel ->
+  match unrank_inner fuel index k cur nck n with
+  | Err t => t <> 9
+  | Ok (_, _, n') => 1 <= n' <= n
+  end.
+Proof.
+  induction fuel as [|f IH]; intros index k cur nck n Hn Hf; [lia|].
+  rewrite unrank_inner_eq.
+  destruct (cur - nck >? index) eqn:Ht; [|lia].
+  destruct (n - 1 =? 0) eqn:Hz; [discriminate|].
+  apply Z.eqb_neq in Hz.
+  specialize (IH index k (cur - nck) ((nck * (n - k) - (nck * (n - k)) mod k) / (n - 1)) (n - 1) ltac:(lia) ltac:(lia)).
+  destruct (unrank_inner f index k (cur - nck) ((nck * (n - k) - (nck * (n - k)) mod k) / (n - 1)) (n - 1))
+    as [[[c' k'] n'] | t]; [lia | exact IH].
+Qed.
+
+Lemma outer_no_fuel_error : forall ks index cur nck n,
+  0 <= n -> unrank_outer index ks cur nck n <> Err 9.
+Proof.
+  induction ks as [|k ks IH]; intros index cur nck n Hn; cbn [unrank_outer]; [discriminate|].
+  destruct (n =? 0) eqn:Hz; [discriminate|]. apply Z.eqb_neq in Hz.
+  pose proof (inner_no_fuel_error (S (Z.to_nat n)) index k cur (nck * k / n) n ltac:(lia) ltac:(lia)) as H.
+  destruct (unrank_inner (S (Z.to_nat n)) index k cur (nck * k / n) n) as [[[c' k'] n'] | t]; cbn [res_bind].
+  - specialize (IH index c' k' (n' - 1) ltac:(lia)).
+    destruct (unrank_outer index ks c' k' (n' - 1)) as [rest | t]; cbn [res_bind]; [discriminate | exact IH].
+  - intros E. injection E as E. exact (H E).
+Qed.
+
+Lemma unrank_no_fuel_error : forall index n k, 0 <= n -> unrank index n k <> Err 9.
+Proof. intros index n k Hn. unfold unrank. apply outer_no_fuel_error. exact Hn. Qed.
